@@ -27,8 +27,12 @@ def run_property(prop: str, tier: str, replay: str | None = None,
         model = Model(Repo(root))
         ctx = Ctx(prop, tier, model)
         try:
-            _shared_state_rules(ctx, model, prop)
-            mod.run(ctx)
+            try:
+                _shared_state_rules(ctx, model, prop)
+                mod.run(ctx)
+            finally:
+                from .absint import close_generators
+                close_generators()
         except ModelViolation as mv:
             ctx.ob(mv.key, False, mv.where, mv.what)
             ctx.extra["aborted_after"] = (
